@@ -103,6 +103,10 @@ def gen_ops(ctx):
         out = [(r.range(lo, hi), r.range(lo, hi)) for _ in range(n)]
         return out
     reps = 4 if th else 1
+    def diff_dims(w, h):
+        while True:
+            w2, h2 = r.range(1, hi), r.range(1, hi)
+            if (w2, h2) != (w, h): return (w2, h2)
     # ---- witnesses of the three fixed findings (known_findings.json), always run first
     ops += ["xf rgb8 3 2 1 transpose", "xf rgb8 3 2 1 nth 1", "xf rgb8 2 1 1 anycc g8", "xf rgb8 2 1 1 anyccx g8"]
     # ---- transformations: every alternative x every transformation
@@ -165,6 +169,11 @@ def gen_ops(ctx):
                     kind = r.below(3)            # equal content / one differing pixel / unrelated content
                     dpos = r.range(0, w * h - 1) if kind == 1 else -1
                     ops.append("equal %s %s %s %d %d %d %d %d %d %d" % (mode, T1, T2, w, h, w, h, s, s if kind < 2 else seed(), dpos))
+                    # operands of DIFFERENT dimensions: incompatible => bad_cast whatever the sizes; compatible => the
+                    # concrete call asserts, and so must the run-time typed one (probed in forked children)
+                    (w2, h2) = diff_dims(w, h)
+                    ops.append("copy %s %s %s %d %d %d %d %d %d -1" % (mode, T1, T2, w, h, w2, h2, seed(), seed()))
+                    ops.append("equal %s %s %s %d %d %d %d %d %d -1" % (mode, T1, T2, w, h, w2, h2, seed(), seed()))
             # resampling: source and destination of different sizes
             for mode in MODES:
                 for _ in range(reps):
@@ -183,6 +192,8 @@ def gen_ops(ctx):
                 for (w, h) in shapes(reps):
                     ops.append("ccopy %s %s %s %d %d %d %d %d %d -1" % (mode, T1, T2, w, h, w, h, seed(), seed()))
                     ops.append("ccopyx %s %s %s %d %d %d %d %d %d -1" % (mode, T1, T2, w, h, w, h, seed(), seed()))
+            (w, h) = shapes(1)[0]; (w2, h2) = diff_dims(w, h)
+            ops.append("%s %s %s %s %d %d %d %d %d %d -1" % (("ccopy", "ccopyx")[r.below(2)], MODES[r.below(4)], T1, T2, w, h, w2, h2, seed(), seed()))
     # empty views through the binary overloads
     for T in L7:
         ops.append("copy aa %s %s 0 0 0 0 1 2 -1" % (T, T)); ops.append("equal aa %s %s 0 2 0 2 1 2 -1" % (T, T))
@@ -234,6 +245,8 @@ def gen_ops(ctx):
                     s = seed(); kind = r.below(3)
                     ops.append("B equal %s %s %s %d %d %d %d %d %d %d" % (mode, T, T2, w, h, w, h, s, s if kind < 2 else seed(), r.range(0, w * h - 1) if kind == 1 else -1))
                     ops.append("B ccopyx %s %s %s %d %d %d %d %d %d -1" % (mode, T, T2, w, h, w, h, seed(), seed()))
+                    (w2, h2) = diff_dims(w, h)
+                    ops.append("B %s %s %s %s %d %d %d %d %d %d -1" % (("copy", "equal", "ccopyx")[r.below(3)], mode, T, T2, w, h, w2, h2, seed(), seed()))
             (w1, h1), (w2, h2) = shapes(2)
             ops.append("B img assign %s %s %d %d %d %d %d %d %s" % (T, T2, w1, h1, w2, h2, seed(), seed(), "any" if r.chance(1, 2) else "conc"))
             (w, h) = shapes(1)[0]; s = seed(); kind = r.below(3)
@@ -307,7 +320,8 @@ def run(ctx, ops=None):
         rule="op lines: every alternative of the type list x every lifted transformation (several shapes, write-through probe) and every pair of a geometric "
              "transformation followed by a second lifted transformation (run on the mapped type list), every ORDERED pair of "
              "alternatives x every overload shape (any/any, const any/any, any/concrete, concrete/any) of copy_pixels, equal_pixels, copy_and_convert_pixels "
-             "(default and user converter), resample_pixels and resize_view, every alternative x every fill value type, for_each_pixel, and copy / assignment / "
+             "(default and user converter), resample_pixels and resize_view, every alternative x every fill value type, for_each_pixel, operands of different dimensions (incompatible => bad_cast; "
+             "compatible => the concrete assertion, matched in forked children), a STATEFUL user converter, and copy / assignment / "
              "equality / recreate of any_image and any_image_view; shapes and contents seeded by VERIF_SEED. non-trivial = more than one pixel involved or the "
              "bad_cast path is exercised (distinct op lines counted); the judge compares the run-time typed result with the concrete call of the real code",
         samples=samples, distinct_nontrivial=distinct, assumptions=ASSUME, trusted_base=vlib.TRUSTED_BASE + [
